@@ -366,19 +366,36 @@ Definition step (s : st) (o : op) : st * outcome :=
     (if artifact_present s d then ds_trash [d] s else s, Ok)
   | Ingest d1 d2 r k =>
     (* the whole of Butler.ingest is one transaction.  Registry half first (run, then the two refs); then the datastore half:
-       the file is copied to the place the template gives the FIRST ref (overwriting), one records row per ref naming that
-       artifact, one location row per ref.  When the datastore already knows one of the ids the insert fails, the database is
-       rolled back AND THE COPIED FILE IS REMOVED -- also when it replaced an artifact that was there before (F-C01-reingest) *)
+       FileDatastore._refuse_datasets_already_stored (since /repo 2da36a1) refuses with ConflictingDefinitionError when one of
+       the ids has a dataset_location row or a file_datastore_records row, BEFORE any file is transferred: nothing changes.
+       Else the file is copied to the place the template gives the FIRST ref (overwriting), one records row per ref naming
+       that artifact, one location row per ref.  (Before 2da36a1: `ingest_before_fix` below.) *)
     match ctype s r with
     | None => (s, Err MissingColl)
     | Some Run =>
       if d1 =? d2 then (s, Err Conflict)
       else if negb (imp_ok s d1 (r, k) && imp_ok s d2 (r, sib k)) then (s, Err Conflict)
-      else if has_rec s d1 || memN d1 (loc s) || (has_rec s d2 || memN d2 (loc s)) then (unwrite s (r, k), Err Conflict)
+      else if has_rec s d1 || memN d1 (loc s) || (has_rec s d2 || memN d2 (loc s)) then (s, Err Conflict)
       else (mk (colls s) (chains s) (add_row s d1 (r, k) (add_row s d2 (r, sib k) (ds s))) (tags s) (calibs s)
                (d1 :: d2 :: loc s) (trash s) ((d1, (r, k)) :: (d2, (r, k)) :: recs s) (addA (r, k) (files s)), Ok)
     | Some _ => (s, Err CollType)
     end
+  end.
+
+(* The datastore half of the same ingest BEFORE /repo 2da36a1 (kept for the `_refuted_without_fix` witness only): no pre-check; the
+   file was copied over the target first, the insert of the records / location rows failed for an id the datastore knew, the database
+   was rolled back AND THE COPIED FILE WAS REMOVED -- also when it had replaced an artifact that was there before. *)
+Definition ingest_before_fix (s : st) (d1 d2 r k : N) : st * outcome :=
+  match step s (Ingest d1 d2 r k) with
+  | (s', Err Conflict) =>
+    match ctype s r with
+    | Some Run =>
+      if negb (d1 =? d2) && (imp_ok s d1 (r, k) && imp_ok s d2 (r, sib k))
+         && (has_rec s d1 || memN d1 (loc s) || (has_rec s d2 || memN d2 (loc s)))
+      then (unwrite s (r, k), Err Conflict) else (s', Err Conflict)
+    | _ => (s', Err Conflict)
+    end
+  | x => x
   end.
 
 Definition exec (s : st) (o : op) : st := fst (step s o).
